@@ -2621,7 +2621,7 @@ CATCH_ALL
 int
 ppl_io_print_variable(ppl_dimension_type var) try {
   const char* f = c_variable_output_function(var);
-  if (f == nullptr || puts(f) < 0) {
+  if (f == nullptr || fputs(f, stdout) < 0) {
     return PPL_STDIO_ERROR;
   }
   return 0;
